@@ -139,6 +139,7 @@ fn base_cfg(rng: &mut Rng) -> DnsCfg {
         early_poll_pm: *rng.pick(&[0u32, 200, 500]),
         trunc_at: None,
         max_polls: 400,
+        l2: *rng.pick(&[0u8, 0, 0, 1, 2, 2, 3]),
     }
 }
 
